@@ -53,6 +53,8 @@ RULE_TEXT = {
     "E4": "the closure built for Effect::Action dispatches the captured action once through the dispatcher it is given",
     "E5": "dispatch_task/dispatch_thunk submit the task on every path; a None pool slot is acceptable only if stop() waits for the reducer loop before emptying the slot",
     "E6": "the reducer thread never dispatches or enqueues into its own queue synchronously",
+    "N4": "with a Dispatch answer and no before_dispatch veto every received action reaches the subscriber loop (or an emptiness test of the list)",
+    "CB1": "the reducer thread holds neither the state lock during any user callback nor the subscriber-list lock during on_notify",
     "Q10": "no body running synchronously on the reducer thread constructs an Effect: a dequeued action is never re-posted by the store",
     "E8": "the store does not cap its worker pool below reducer + 2 workers (constant sizes only; the machine default is accepted)",
     "E7": "on the reducer thread the effects vector is only pushed to, measured, shown to the hooks and drained by the hand-over loop",
@@ -143,7 +145,8 @@ PROPS = {
                    r(PI3_REDUCE, name="PI3"), P.pi4_reducer_threading, P.pi5_write_back,
                    r(P.pi6_action_identity, only=r"REDUCE"), P.s1_single_writer, P.s2_initial_value,
                    T.st1_stop_is_close_plus_join, T.st3_loop_exits, r(_ch1_block, name="CH1"), r(_ch2_block, name="CH2"),
-                   r(M.mw_table, only=r"flags:before_reduce:(ContinueAction|BreakChain|Err)|MW2:.*before_reduce")),
+                   r(M.mw_table, only=r"flags:before_reduce:(ContinueAction|BreakChain|Err)|MW2:.*before_reduce"),
+                   S.cb1_callbacks_hold_no_reentrant_lock),
         "explanation": "Static decision on the compiler's MIR: single consumer of one queue (Q1,Q2,Q6); per received action exactly one chain pass that threads the chain variable through every registered reducer in order (PI1,PI3,PI4,PI6); only a before_reduce DoneAction keeps an action from the reducers (MW flags, MW2); the chain's result is written back unconditionally by the only writer of the state cell (PI5,S1,S2); stop() joins the consumer (ST1,ST3); the blocking arm never discards (CH1,CH2). Premises of the fold argument in DESIGN.md C01; behaviour follows from these premises plus the trusted base, nothing is executed.",
         "not_decided": ["FIFO/no-loss of crossbeam recv (trusted)"],
     },
@@ -164,13 +167,14 @@ PROPS = {
                    r(M.mw_table, only=r"(flow|flags):before_dispatch|arm-present:before_dispatch|MW2:.*before_dispatch|count:before_dispatch"),
                    r(Q.q6_sequential_consumer, only=r"event-graph|receive events|NOTIFY"),
                    E.e6_reducer_never_enqueues, r(PI3_NOTIFY, name="PI3"),
-                   r(S.su2_unsubscribe, only=r"compares-element-with-own-subscriber|identity-test|removes-exactly-the-identical-element|floor")),
+                   r(S.su2_unsubscribe, only=r"compares-element-with-own-subscriber|identity-test|removes-exactly-the-identical-element|floor"),
+                   M.n4_notify_phase_not_bypassed, S.cb1_callbacks_hold_no_reentrant_lock),
         "explanation": "Static decision: one notify decision per reduced action from the last reducer's answer (N1,N2), one forward pass over a snapshot of the registration-ordered list (SU1,PI3) with that action and the chain's result state (N3,PI6), suppressed only by a before_dispatch DoneAction (MW table, MW2); nothing on the reducer thread between reduce and notify can block on or fail through the store's own queue (E6).",
         "not_decided": ["chains mixing Dispatch and Keep beyond 'last decides'"],
     },
     "C04": {
         "rules": R(Q.q3_enqueue_under_sender_lock, Q.q4_close,
-                   r(C.ch2_result_tells_enqueued, only=r"err-means-not-enqueued|ok-means-enqueued:BlockOnFull|floor"),
+                   r(C.ch2_result_tells_enqueued, only=r"err-means-not-enqueued|ok-means-enqueued:BlockOnFull|floor"), r(_ch1_block, name="CH1"),
                    S.su3_shutdown_release, T.st1_stop_is_close_plus_join, T.st2_closed_means_err, T.st3_loop_exits,
                    T.st4_callbacks_live_in_the_loop, T.st5_idempotent, r(C.dr1_result_mapping, only=r"result-maps-Ok|result-ignored|floor"),
                    r(X.ch_channeled_release, name="R2"), S.lc3_release_under_list_lock),
@@ -188,7 +192,8 @@ PROPS = {
     "C06": {
         "rules": R(r(_ch1_drop, name="CH1"), C.ch0_never_disconnected, C.ch2_result_tells_enqueued, C.ch3_drop_accounting, C.ch4_retry_identity,
                    r(Q.q3_enqueue_under_sender_lock, drop=r":StoreImpl::close$"), r(C.dr1_result_mapping, only=r"result-maps-Err|result-ignored|floor"),
-                   r(ME.me7_monotone, only=r"action_dropped"), r(C.ch5_capacity, only=r"capacity-(unmodified|modified|passed-through|from-field):|only-bounded|count:|floor")),
+                   r(ME.me7_monotone, only=r"action_dropped"), r(C.ch5_capacity, only=r"capacity-(unmodified|modified|passed-through|from-field):|only-bounded|count:|floor"),
+                   r(B.bu1_write_sets, only=r":policy$|floor"), r(B.bu3_pass_through, only=r"policy|floor")),
         "explanation": "Static decision by exhaustive path enumeration of the send wrapper: drop arms contain only non-blocking queue operations (CH1); Ok iff enqueued (CH2); each popped/rejected action is counted by exactly one action_dropped call (CH3; the counter is one fetch_add, ME7); DropOldest pops the head only on Full and re-sends the bounced item (CH4) with producers serialised by the sender lock (Q3); Dispatcher::dispatch maps Err to Err (DR1).",
         "not_decided": ["which action a concurrent consumer makes the victim (left open by the statement)"],
         "exhaustive": True,
@@ -199,20 +204,22 @@ PROPS = {
                    r(P.pi2_phase_order, only=r"order:(HOOK|REDUCE|NOTIFY)[^<]*<(HOOK|REDUCE|NOTIFY)"), P.pi3_full_forward_iteration, T.st4_callbacks_live_in_the_loop,
                    r(S.su1_mutators, drop=r"removal:clear|floor:clear"), S.rg1_registration_order,
                    r(M.mw_table, only=r"flow:.*:(ContinueAction|DoneAction|Err)|count:"), M.mw5_hooks_on_every_action,
-                   r(P.n1_flag, only=r"flag-initially-true|floor"), P.n2_guard),
+                   r(P.n1_flag, only=r"flag-initially-true|floor"), P.n2_guard, M.n4_notify_phase_not_bypassed,
+                   r(B.bu1_write_sets, only=r":(reducers|middlewares|without_reducer)$|floor"), r(B.bu3_pass_through, only=r"reducers|middlewares|floor")),
         "explanation": "Static decision: one reducer context (Q1,Q6,ST4); phases in the documented order with no reverse path in the inlined event graph (PI2); each group iterated fully, forward, from the collection read under its lock inside the pass (PI3) whose mutators preserve registration order (SU1,RG1); a hook loop goes on to the next middleware after Continue/Done/Err (MW flow); the next action's callbacks come after the next receive (PI1).",
         "not_decided": ["run-time thread identity (decided as: no callback site outside the reducer thread's synchronous call tree)"],
     },
     "C08": {
         "rules": R(P.s1_single_writer, P.s2_initial_value, r(P.pi5_write_back, only=r"written-value-is-chain-result|write-back-unconditional|floor"),
                    Q.q1_one_queue_one_consumer, r(P.pb1_publish_before_notify, only=r"NOTIFY|floor"),
-                   r(P.pi1_one_pass_per_action, only=r"receive events|at-most-once-per-pass:WRITE_STATE|every-pass-has:WRITE_STATE|count:WRITE_STATE")),
+                   r(P.pi1_one_pass_per_action, only=r"receive events|at-most-once-per-pass:WRITE_STATE|every-pass-has:WRITE_STATE|count:WRITE_STATE"),
+                   r(S.cb1_callbacks_hold_no_reentrant_lock, only=r"no-state-lock|floor")),
         "explanation": "Static decision: the state cell is assigned only whole chain results by one thread in reduce order (S1,PI5,Q1,PI1), readers clone it under its lock (S1), it starts as the configured initial state (S2), and the write-back lies on every path from the receive to a subscriber call of the same pass (PB1).",
         "not_decided": [],
     },
     "C09": {
         "rules": R(r(S.su1_mutators, drop=r"append:|floor:push"), S.su2_unsubscribe, S.su3_shutdown_release, S.su5_release_only_on_reducer_thread, S.su6_snapshot_right_before_delivery, S.su4_delivery_atomic_with_membership,
-                   S.lc1_unsubscribe_sites, r(X.ch_channeled_release, name="R2"), r(PI3_NOTIFY, name="PI3")),
+                   S.lc1_unsubscribe_sites, S.lc3_release_under_list_lock, r(X.ch_channeled_release, name="R2"), r(PI3_NOTIFY, name="PI3")),
         "explanation": "Static decision: unsubscribe removes exactly the identical element of its own store's list under the list lock and releases it once (SU1,SU2); whatever is still listed at shutdown is released once and the list cleared in the same critical section on every path to the end of the reducer thread (SU3); no third release path (LC1); every listed element is visited on each notifying pass (PI3); channeled release is idempotent (R2). Delivery atomic with membership (SU4) is a known finding.",
         "not_decided": [],
     },
@@ -242,8 +249,10 @@ PROPS = {
         "exhaustive": True,
     },
     "C13": {
-        "rules": R(DL.l1_lock_order, DL.l2_wait_for, E.e6_reducer_never_enqueues),
-        "explanation": "Static deadlock analysis on context-sensitive inlined call graphs rooted at every entry point of every thread role (client API, reducer thread, pool jobs, channeled thread, iterator consumer), with class-hierarchy resolution of dyn calls into the crate's impls and the property's own model of user callbacks: the lock-order graph is acyclic without self edges (L1); no blocking send/recv/join is performed while holding a lock the unblocking party takes, no role blocks on a channel only it consumes, joined threads are disconnected first (L2, E6).",
+        "rules": R(DL.l1_lock_order, DL.l2_wait_for, E.e6_reducer_never_enqueues,
+                   T.st1_stop_is_close_plus_join, Q.q4_close, T.st3_loop_exits,
+                   r(S.cb1_callbacks_hold_no_reentrant_lock, only=r"no-state-lock|floor")),
+        "explanation": "Static deadlock analysis on context-sensitive inlined call graphs rooted at every entry point of every thread role (client API, reducer thread, pool jobs, channeled thread, iterator consumer), with class-hierarchy resolution of dyn calls into the crate's impls and the property's own model of user callbacks: the lock-order graph is acyclic without self edges (L1); no blocking send/recv/join is performed while holding a lock the unblocking party takes, no role blocks on a channel only it consumes, joined threads are disconnected first (L2, E6); the thread stop() joins is guaranteed its Exit: stop() closes first, close() enqueues Exit under a blocking lock on every path, the loop leaves on Exit (ST1,Q4,ST3).",
         "not_decided": ["progress inside crossbeam/rusty_pool/std", "a client thread playing two roles itself", "the 3 s timeout masking a hang"],
     },
     "C14": {
@@ -251,7 +260,8 @@ PROPS = {
                    r(S.su3_shutdown_release, only=r"every-exit-releases|release-after-loop|floor|plain-forward|no-early-exit|in-loop|receiver-from"),
                    r(_ch1_block, name="CH1"), r(_ch2_block, name="CH2"), r(PI3_NOTIFY, name="PI3"),
                    r(P.pi6_action_identity, only=r"NOTIFY"),
-                   r(S.su2_unsubscribe, only=r"compares-element-with-own-subscriber|identity-test|removes-exactly-the-identical-element|on_unsubscribe-iff-removed|floor")),
+                   r(S.su2_unsubscribe, only=r"compares-element-with-own-subscriber|identity-test|removes-exactly-the-identical-element|on_unsubscribe-iff-removed|floor"),
+                   M.n4_notify_phase_not_bypassed),
         "explanation": "Static decision: iter() registers a direct subscriber that forwards each notification once into a capacity-1 blocking (lossless) channel (IT1,IT2,CH1,CH2) fed by the ordinary notify phase (N2,N3,PI3,PI6); Exit is sent by the shutdown release, which every path to the end of the reducer thread passes after the last notification (SU3); next() passes pairs through and is fused, drop detaches (IT3,IT4; exhaustive).",
         "not_decided": ["blocking behaviour of dropping an iterator with an unread item (C13's finding)", "timing"],
         "exhaustive": True,
